@@ -574,6 +574,70 @@ class StructRun(object):
         for k, v in st.items():
             self.stats["traffic:" + k] = v
 
+    # -- decoding is a function of the bytes alone ---------------------------------------------------------
+    def purity_phase(self):
+        """Every message this run encoded and decoded successfully is decoded AGAIN after the decoder has been shown
+        near relatives of it that it refuses or reads differently (an attribute name replaced by one PyKMIP has no value
+        class for - Link, Usage Limits, Fresh - of the same length; single flipped bytes): the second decoding must give
+        what the first gave.  (A decoder that remembers what it could not read - a process-lifetime table of operations,
+        a class attribute - fails exactly here.)"""
+        byname = {}
+        for key, (cls, own) in self.lib.classes.items():
+            byname.setdefault(cls.__name__, cls)
+        seen, sample = set(), []
+        order = sorted(self.emitted, key=lambda m: 0 if m[0].replace("traffic-", "") in (
+            "ResponseMessage", "RequestMessage", "ResponseBatchItem", "RequestBatchItem") else 1)
+        limit = 700 if self.tier == "quick" else 6000
+        for (c, vn, b) in order:
+            c = c.replace("traffic-", "").split(".")[-1]
+            if c not in byname or (c, vn, b) in seen or IC.factory_for_class(byname[c]) is None:
+                continue
+            seen.add((c, vn, b))
+            sample.append((c, vn, b))
+            if len(sample) >= limit:
+                break
+        SUBST = [(b"Name", b"Link"), (b"Object Group", b"Usage Limits"), (b"Initial Date", b"Usage Limits"),
+                 (b"State", b"Fresh"), (b"Sensitive", b"Lease Tim")]
+        n = poisons = 0
+        for (c, vn, b) in sample:
+            f = IC.factory_for_class(byname[c])
+            v = IC.vof(vn)
+            try:
+                d1, left1 = IC.dec(f, b, v)
+            except Exception:
+                continue
+            ps = [b.replace(x, y) for x, y in SUBST if x in b]
+            for k in (len(b) // 3, len(b) - 5):
+                if 8 <= k < len(b):
+                    q = bytearray(b)
+                    q[k] ^= 0x41
+                    ps.append(bytes(q))
+            for q in ps:
+                poisons += 1
+                try:
+                    IC.dec(f, q, v)
+                except BaseException:
+                    pass
+            n += 1
+            self.evaluations += 1
+            try:
+                d2, left2 = IC.dec(f, b, v)
+            except Exception as e:
+                self.findings.append(Finding(
+                    "c01:decoder-remembers:%s" % c,
+                    "%s under KMIP %s: bytes that were decoded a moment ago are refused (%s: %s) after the decoder was shown %d "
+                    "near relatives of them" % (c, vn, type(e).__name__, str(e)[:120], len(ps)),
+                    {"kind": "purity", "class": c, "version": vn, "hex": b.hex(), "poisons": [q.hex() for q in ps]}))
+                continue
+            if left1 != left2 or IC.diff(d1, d2):
+                self.findings.append(Finding(
+                    "c01:decoder-remembers:%s" % c,
+                    "%s under KMIP %s: the same bytes decode to something else after the decoder was shown %d near relatives "
+                    "of them" % (c, vn, len(ps)),
+                    {"kind": "purity", "class": c, "version": vn, "hex": b.hex(), "poisons": [q.hex() for q in ps]}))
+        self.stats["purity_messages"] = n
+        self.stats["purity_poison_frames"] = poisons
+
     # -- falsy values of optional primitive fields --------------------------------------------------
     def falsy_phase(self):
         """For every class and every constructor argument that holds (or can hold) a primitive value: the same
@@ -794,6 +858,7 @@ class StructRun(object):
         codec_fields.discover_phase(self)
         codec_fields.nested_phase(self)
         self.falsy_phase()
+        self.purity_phase()
         return self
 
 
